@@ -255,14 +255,14 @@ def run(ctx):
         trap_gen(ctx, r[0] if r else None, par)
     except Unsupported as e:
         rep.unk('J2', 'a_trajtrap_gen', str(e))
-    if ctx.tier == 'thorough':
-        try:
-            bell_gen(ctx, r2[0] if r2 else None, parb)
-        except Unsupported as e:
-            rep.unk('J2', 'a_trajbell_gen', str(e))
+    try:
+        bell_gen(ctx, r2[0] if r2 else None, parb)
+    except Unsupported as e:
+        rep.unk('J2', 'a_trajbell_gen', str(e))
     rep.floor('J1', 5)
     rep.floor('J1h', 6)
-    rep.floor('J2', 4)
+    rep.floor('J2', 5)
+    rep.floor('J3', 1)
 
 
 def boundary_hold(rep, res, par, sname, table, tsym):
@@ -440,6 +440,55 @@ def bell_gen(ctx, res, parb):
                 else:
                     bad += 1
                     probs.append('%s discontinuous at %s on planning path %s' % (f, b, str(lf.pc)[:100]))
+    # J3: the constant-acceleration sub-phases have non-negative length because the planning branch's own guard says so
+    j3 = []
+    nj3 = 0
+    jm_, am_ = sp.Symbol('jm_', real=True, positive=True), sp.Symbol('am_', real=True, positive=True)
+    seen_leaf = 0
+    for lf in lv:
+        r = lf.ret
+        if r is None or r is TOP or sp.sympify(r) == 0:
+            continue
+        ff = final_fields(dom, lf)
+        if S('tv') not in ff or sp.sympify(ff[S('tv')]) == 0:
+            continue
+        seen_leaf += 1
+        if seen_leaf > 40:
+            break
+        for tot, jrk in ((S('ta'), S('taj')), (S('td'), S('tdj'))):
+            E = sp.together(sp.sympify(ff[tot]) - 2 * sp.sympify(ff[jrk]))
+            if alg.sqrt_zero(E):
+                nj3 += 1
+                continue
+            N, D = sp.fraction(sp.cancel(E))
+            sD = sign_of(D)
+            if sD is None:
+                j3.append('%s - 2*%s = %s: sign of the denominator unknown' % (tot, jrk, E))
+                continue
+            N = sp.expand(N * sD)
+            ok = False
+            for c in lf.pc:
+                if not isinstance(c, alg.Cond):
+                    continue
+                d = sp.expand(sp.sympify(c.a) - sp.sympify(c.b))
+                if d == 0:
+                    continue
+                q = sp.simplify(N / d)
+                sq = sign_of(q)
+                if sq is None or not q.free_symbols <= {jm_, am_, sp.Symbol('vm_', real=True, positive=True)}:
+                    continue
+                rel = c.rel()
+                if (sq > 0 and rel in ('>=', '>')) or (sq < 0 and rel in ('<=', '<')):
+                    ok = True
+            if ok:
+                nj3 += 1
+            else:
+                j3.append('on planning path %s the length %s - 2*%s = %s of the constant-acceleration sub-phase is not implied non-negative by the branch guard'
+                          % (str(lf.pc)[:140], tot, jrk, sp.simplify(E)))
+    if j3:
+        rep.bad('J3', 'a_trajbell_gen[sub-phases]', '; '.join(sorted(set(j3))[:2])[:700], loc=loc, key='a_trajbell_gen: sub-phase length vs guard')
+    elif nj3:
+        rep.ok('J3', 'a_trajbell_gen[sub-phases]', 'ta >= 2*taj and td >= 2*tdj follow from the guard of the planning branch that assigns them (%d instances)' % nj3, loc=loc)
     if nuse == 0:
         rep.unk('J2', 'a_trajbell_gen', 'no limit-reached planning path found')
     elif probs:
